@@ -414,7 +414,41 @@ def r6_purity(ctx):
     ctx.ok("C01.R6c", (STATE, "<derived variables>"), None, f"{len(reach)} functions reachable from the definitions: none modifies a view of its arguments", construct="inputs of definitions untouched")
 
 
+STATE_ATTRS = {"dag", "auto_fork_type", "_tracked_variables", "_values", "_last_fork"}
+
+
+def r1d_no_other_cache(ctx, rid="C01.R1d"):
+    """The invalidation (assignment), the snapshot and the revert know two containers: `_values` and `_last_fork`.  Anything else a State
+    keeps about its values (a second cache, a memo of dense views ...) is outside that protocol: it is not reset when a parent is assigned,
+    not snapshotted, not restored by a revert."""
+    ctx.rule(rid, "State keeps its values in `_values` / `_last_fork` only (closed set of attributes written by its methods)", 1)
+    ix = ctx.ix
+    seen = {}
+    for b in ix.classes[(STATE, "State")].body:
+        if not isinstance(b, ast.FunctionDef):
+            continue
+        f = ix.funcs[(STATE, f"State.{b.name}")]
+        for st in ast.walk(b):
+            if isinstance(st, (ast.Assign, ast.AugAssign, ast.AnnAssign)):
+                for t in store_targets(st):
+                    base = t
+                    while isinstance(base, ast.Subscript):
+                        base = base.value
+                    if isinstance(base, ast.Attribute) and U(base.value) == "self":
+                        seen.setdefault(base.attr, (f, st))
+            elif isinstance(st, ast.Call) and U(st.func) in ("setattr", "object.__setattr__") and st.args and U(st.args[0]) == "self" and len(st.args) > 1 and isinstance(st.args[1], ast.Constant):
+                seen.setdefault(st.args[1].value, (f, st))
+    for a, (f, st) in sorted(seen.items()):
+        ctx.check(a in STATE_ATTRS, rid, f, st, f"`self.{a}` is one of the attributes the assignment / snapshot / revert protocol covers",
+                  f"State keeps `self.{a}` besides `_values` / `_last_fork`: whatever it remembers about the values is not invalidated, snapshotted or restored with them "
+                  "(a reverted proposal, or a re-assigned parent, is still visible through it)", construct=f"attribute {a}")
+    missing = STATE_ATTRS - set(seen)
+    if missing:
+        ctx.unknown(rid, (STATE, "State"), None, f"attributes {sorted(missing)} are no longer written by State: the storage was re-organised", construct="attributes of State")
+
+
 def rules(ctx):
+    r1d_no_other_cache(ctx)
     r1_writers(ctx)
     r2_invalidate(ctx)
     r3_read(ctx)
